@@ -207,10 +207,16 @@ class AquaCropModel:
         # The crop calendar is derived on a private copy of the user's crop, so that
         # initialising again from the same Crop object starts from the same values
         crop = deepcopy(self.crop)
+        # Likewise the soil (its profile is deepened for the crop and the run's
+        # compartment arrays are stored on it) and the CO2 object (the
+        # concentration in force is written to it): models that share these
+        # objects, one after the other or interleaved, do not affect each other
+        soil = deepcopy(self.soil)
+        co2_concentration = deepcopy(self.co2_concentration)
 
         # read model params
         self._clock_struct, self._param_struct = read_model_parameters(
-            self._clock_struct, self.soil, crop, self.weather_df
+            self._clock_struct, soil, crop, self.weather_df
         )
 
         # read irrigation management
@@ -229,7 +235,7 @@ class AquaCropModel:
         )
 
         # Compute additional variables
-        self._param_struct.CO2 = self.co2_concentration
+        self._param_struct.CO2 = co2_concentration
         self._param_struct = compute_variables(
             self._param_struct, self.weather_df, self._clock_struct
         )
